@@ -4,7 +4,8 @@ import HeartwoodModel.Model.FetchSched
 
 Property theorems about `Model/FetchSched.lean`. All of them quantify over every configuration
 (`fetch_concurrency`, persistent peers, the `refs_status_of` function `want`) and every finite sequence
-of events `ops` (with every shuffle order `perm`), i.e. over all reachable states.
+of events `ops` (with every shuffle order `perm` and every sync plan `plan`, with and without the
+`wireFilter` on worker results), i.e. over all reachable states.
 
 Property theorems: `no_panic`, `dequeue_unwrap_safe`, `session_consistency`, `one_fetch_per_repo`,
 `capacity_respected`, `emitted_registered` (all at full strength, from the invariant `Inv`: `init_inv`,
@@ -790,37 +791,93 @@ theorem redial_inv {c : Cfg} {s : State} (h : Inv c s) :
     obtain ⟨y, hy, hr⟩ := h.conv r f hf
     exact ⟨y, keep _ _ hy (connected_of_mem_fset hr), hr⟩
 
-theorem wake_inv {c : Cfg} {s s' : State} {perm : List Nid}
-    (h : Inv c s) (hd : wake c s perm = .ok s') : Inv c s' := by
+theorem invAnn_inv {c : Cfg} {s s' : State} {rid : Rid} {n : Nid}
+    (h : Inv c s) (hd : invAnn c s rid n = .ok s') : Inv c s' := by
+  unfold invAnn at hd
+  split at hd
+  · cases hd; exact h
+  · rename_i x hx
+    split at hd
+    · cases hd; exact h
+    · rename_i hst; exact fetch_inv (refsAnn_mid_inv h hx hst) hd
+    · exact fetch_inv h hd
+
+theorem invAnn_ok {c : Cfg} {s : State} (h : Inv c s) (rid : Rid) (n : Nid) :
+    ∃ s', invAnn c s rid n = .ok s' := by
+  unfold invAnn
+  split
+  · exact ⟨_, rfl⟩
+  · rename_i x hx
+    split
+    · exact ⟨_, rfl⟩
+    · rename_i hst; exact fetch_ok (refsAnn_mid_inv h hx hst) _ _ _ _
+    · exact fetch_ok h _ _ _ _
+
+theorem fetchAll_inv {c : Cfg} {s s' : State} {plan : List (Rid × Nid)} (h : Inv c s)
+    (hd : fetchAll c s plan = .ok s') : Inv c s' := by
+  induction plan generalizing s with
+  | nil => simp only [fetchAll] at hd; cases hd; exact h
+  | cons p ps ih =>
+    obtain ⟨rid, n⟩ := p
+    simp only [fetchAll] at hd
+    split at hd
+    · rename_i s1 h1; exact ih (fetch_inv h h1) hd
+    · cases hd
+
+theorem fetchAll_ok {c : Cfg} {s : State} (h : Inv c s) (plan : List (Rid × Nid)) :
+    ∃ s', fetchAll c s plan = .ok s' := by
+  induction plan generalizing s with
+  | nil => exact ⟨s, rfl⟩
+  | cons p ps ih =>
+    obtain ⟨rid, n⟩ := p
+    obtain ⟨s1, h1⟩ := fetch_ok h rid n 0 false
+    simp only [fetchAll, h1]
+    exact ih (fetch_inv h h1)
+
+theorem wake_inv {c : Cfg} {s s' : State} {perm : List Nid} {plan : List (Rid × Nid)}
+    (h : Inv c s) (hd : wake c s perm plan = .ok s') : Inv c s' := by
   unfold wake at hd
   split at hd
   · cases hd
-  · rename_i s1 h1; cases hd; exact redial_inv (dequeueFetches_inv h h1)
+  · rename_i s1 h1
+    split at hd
+    · cases hd
+    · rename_i s2 h2; cases hd
+      exact redial_inv (fetchAll_inv (dequeueFetches_inv h h1) h2)
 
-theorem wake_err {c : Cfg} {s : State} {perm : List Nid} {e : Err}
-    (h : Inv c s) (hd : wake c s perm = .error e) : e = .badPerm := by
+theorem wake_err {c : Cfg} {s : State} {perm : List Nid} {plan : List (Rid × Nid)} {e : Err}
+    (h : Inv c s) (hd : wake c s perm plan = .error e) : e = .badPerm := by
   unfold wake at hd
   split at hd
   · rename_i e1 h1; cases hd; exact dequeueFetches_err h h1
-  · cases hd
+  · rename_i s1 h1
+    split at hd
+    · rename_i e2 h2
+      obtain ⟨s2, h2'⟩ := fetchAll_ok (dequeueFetches_inv h h1) plan
+      rw [h2'] at h2; cases h2
+    · cases hd
 
 theorem result_inv {c : Cfg} {s s' : State} {fid : Nat} {perm : List Nid}
     (h : Inv c s) (hd : result c s fid perm = .ok s') : Inv c s' := by
   unfold result at hd
   split at hd
   · cases hd; exact h
-  · simp only at hd
-    refine fetched_inv ?_ hd
-    exact h.congr rfl rfl
+  · split at hd
+    · simp only at hd
+      refine fetched_inv ?_ hd
+      exact h.congr rfl rfl
+    · cases hd; exact h.congr rfl rfl
 
 theorem result_err {c : Cfg} {s : State} {fid : Nat} {perm : List Nid} {e : Err}
     (h : Inv c s) (hd : result c s fid perm = .error e) : e = .badPerm := by
   unfold result at hd
   split at hd
   · cases hd
-  · simp only at hd
-    refine fetched_err ?_ hd
-    exact h.congr rfl rfl
+  · split at hd
+    · simp only at hd
+      refine fetched_err ?_ hd
+      exact h.congr rfl rfl
+    · cases hd
 
 /-! ### one event, all events -/
 
@@ -835,8 +892,9 @@ theorem step_inv {c : Cfg} {s s' : State} {op : Op} (h : Inv c s)
   | disc n l perm => exact disconnected_inv h0 hs
   | fetchCmd rid n => exact fetch_inv h0 hs
   | refsAnn rid n v => exact refsAnn_inv h0 hs
+  | invAnn rid n => exact invAnn_inv h0 hs
   | result fid ok perm => exact result_inv h0 hs
-  | wake perm => exact wake_inv h0 hs
+  | wake perm plan => exact wake_inv h0 hs
 
 /-- An event never panics in a state satisfying the invariant; it can only be rejected because its
 `perm` names a node without session. -/
@@ -855,8 +913,11 @@ theorem step_err {c : Cfg} {s : State} {op : Op} {e : Err} (h : Inv c s)
   | refsAnn rid n v =>
     obtain ⟨s', h'⟩ := refsAnn_ok h0 rid n v
     simp only at hs; rw [h'] at hs; cases hs
+  | invAnn rid n =>
+    obtain ⟨s', h'⟩ := invAnn_ok h0 rid n
+    simp only at hs; rw [h'] at hs; cases hs
   | result fid ok perm => exact result_err h0 hs
-  | wake perm => exact wake_err h0 hs
+  | wake perm plan => exact wake_err h0 hs
 
 theorem runFrom_inv {c : Cfg} {s s' : State} {ops : List Op} (h : Inv c s)
     (hr : runFrom c s ops = .ok s') : Inv c s' := by
@@ -965,7 +1026,7 @@ theorem capacity_respected {c : Cfg} {ops : List Op} {s : State} (hr : run c ops
         rw [hx] at hy; cases hy; exact hm
       exact Nat.le_trans (length_le_of_nodup_subset hnd hsub) (h.sess n x hx).2.2.2.1
 
-def cfg1 : Cfg := { conc := 1, persist := [], want := fun v => v }
+def cfg1 : Cfg := { conc := 1, persist := [], want := fun v => v, wireFilter := false }
 
 /-- The schedule `i1 c1.1 i1 c2.1` (witness of the defect repaired by `fix: fail a peer's ongoing fetches
 when its session is reset by a new connection`): peer 1 connects, repository 1 is fetched from it,
@@ -1187,13 +1248,37 @@ theorem refsAnn_attr {c : Cfg} {s s' : State} {rid : Rid} {n : Nid} {v : Nat}
     · exact fetchRefsAt_attr (h.shrink (shrink_setSession _ _ _)) hd
     · exact fetchRefsAt_attr h hd
 
-theorem wake_attr {c : Cfg} {s s' : State} {perm : List Nid}
-    (h : Attr s) (hd : wake c s perm = .ok s') : Attr s' := by
+theorem invAnn_attr {c : Cfg} {s s' : State} {rid : Rid} {n : Nid}
+    (h : Attr s) (hd : invAnn c s rid n = .ok s') : Attr s' := by
+  unfold invAnn at hd
+  split at hd
+  · cases hd; exact h
+  · split at hd
+    · cases hd; exact h
+    · exact fetch_attr (h.shrink (shrink_setSession _ _ _)) hd
+    · exact fetch_attr h hd
+
+theorem fetchAll_attr {c : Cfg} {s s' : State} {plan : List (Rid × Nid)} (h : Attr s)
+    (hd : fetchAll c s plan = .ok s') : Attr s' := by
+  induction plan generalizing s with
+  | nil => simp only [fetchAll] at hd; cases hd; exact h
+  | cons p ps ih =>
+    obtain ⟨rid, n⟩ := p
+    simp only [fetchAll] at hd
+    split at hd
+    · rename_i s1 h1; exact ih (fetch_attr h h1) hd
+    · cases hd
+
+theorem wake_attr {c : Cfg} {s s' : State} {perm : List Nid} {plan : List (Rid × Nid)}
+    (h : Attr s) (hd : wake c s perm plan = .ok s') : Attr s' := by
   unfold wake at hd
   split at hd
   · cases hd
-  · rename_i s1 h1; cases hd
-    exact (dequeueFetches_attr h h1).shrink ⟨rfl, rfl, fun _ h => h, fun _ _ h => h⟩
+  · rename_i s1 h1
+    split at hd
+    · cases hd
+    · rename_i s2 h2; cases hd
+      exact (fetchAll_attr (dequeueFetches_attr h h1) h2).shrink ⟨rfl, rfl, fun _ h => h, fun _ _ h => h⟩
 
 theorem mem_of_findPending {s : State} {fid : Nat} {p : Nat × Rid × Nid} (h : findPending s fid = some p) :
     p ∈ s.pending ∧ p.1 = fid := by
@@ -1207,24 +1292,28 @@ theorem result_attr {c : Cfg} {s s' : State} {fid : Nat} {perm : List Nid}
   · cases hd; exact h
   · rename_i fid' rid n hfp
     obtain ⟨hmem, hfid⟩ := mem_of_findPending hfp
-    simp only at hfid hd
-    refine fetched_attr ?_ hd
-    intro hr
-    obtain ⟨h1, h2⟩ := h hr
-    have hstale : (match s.fetching rid with
-        | some f => f.frm == n && f.fid != fid
-        | none => false) = false := by
-      split
-      · rename_i f hf
-        by_cases he : f.frm = n
-        · have := h2 _ hmem f hf he
-          simp only at this
-          simp [he, this, hfid]
-        · simp [he]
-      · rfl
-    refine ⟨by simp only [h1, Bool.false_or]; exact hstale, ?_⟩
-    intro p hp f hf hfr
-    exact h2 p (List.mem_filter.mp hp).1 f hf hfr
+    simp only at hfid
+    split at hd
+    · simp only at hd
+      refine fetched_attr ?_ hd
+      intro hr
+      obtain ⟨h1, h2⟩ := h hr
+      have hstale : (match s.fetching rid with
+          | some f => f.frm == n && f.fid != fid
+          | none => false) = false := by
+        split
+        · rename_i f hf
+          by_cases he : f.frm = n
+          · have := h2 _ hmem f hf he
+            simp only at this
+            simp [he, this, hfid]
+          · simp [he]
+        · rfl
+      refine ⟨by simp only [h1, Bool.false_or]; exact hstale, ?_⟩
+      intro p hp f hf hfr
+      exact h2 p (List.mem_filter.mp hp).1 f hf hfr
+    · cases hd
+      exact h.shrink ⟨rfl, rfl, fun p hp => (List.mem_filter.mp hp).1, fun _ _ h => h⟩
 
 theorem step_attr {c : Cfg} {s s' : State} {op : Op} (h : Attr s) (hs : step c s op = .ok s') : Attr s' := by
   have h0 : Attr { s with emits := [] } := h.shrink ⟨rfl, rfl, fun _ h => h, fun _ _ h => h⟩
@@ -1236,8 +1325,9 @@ theorem step_attr {c : Cfg} {s s' : State} {op : Op} (h : Attr s) (hs : step c s
   | disc n l perm => exact disconnected_attr h0 hs
   | fetchCmd rid n => exact fetch_attr h0 hs
   | refsAnn rid n v => exact refsAnn_attr h0 hs
+  | invAnn rid n => exact invAnn_attr h0 hs
   | result fid ok perm => exact result_attr h0 hs
-  | wake perm => exact wake_attr h0 hs
+  | wake perm plan => exact wake_attr h0 hs
 
 theorem runFrom_attr {c : Cfg} {s s' : State} {ops : List Op} (h : Attr s)
     (hr : runFrom c s ops = .ok s') : Attr s' := by
@@ -1376,6 +1466,17 @@ theorem dequeueFetches_emit {c : Cfg} {s s' : State} {perm : List Nid} (h : Emit
     · rename_i s1 h1; exact ih (dequeueOne_emit h h1) hd
     · cases hd
 
+theorem fetchAll_emit {c : Cfg} {s s' : State} {plan : List (Rid × Nid)} (h : EmitOK s)
+    (hd : fetchAll c s plan = .ok s') : EmitOK s' := by
+  induction plan generalizing s with
+  | nil => simp only [fetchAll] at hd; cases hd; exact h
+  | cons p ps ih =>
+    obtain ⟨rid, n⟩ := p
+    simp only [fetchAll] at hd
+    split at hd
+    · rename_i s1 h1; exact ih (fetch_emit h h1) hd
+    · cases hd
+
 theorem emitOK_of_nil {s : State} (h : s.emits = []) : EmitOK s := by
   intro e he; rw [h] at he; cases he
 
@@ -1412,39 +1513,63 @@ theorem emitted_registered {c : Cfg} {s s' : State} {op : Op} (hs : step c s op 
       · cases hs; exact emitOK_of_nil rfl
       · exact fetchRefsAt_emit (emitOK_of_nil rfl) hs
       · exact fetchRefsAt_emit (emitOK_of_nil rfl) hs
+  | invAnn rid n =>
+    simp only [invAnn] at hs
+    split at hs
+    · cases hs; exact emitOK_of_nil rfl
+    · split at hs
+      · cases hs; exact emitOK_of_nil rfl
+      · exact fetch_emit (emitOK_of_nil rfl) hs
+      · exact fetch_emit (emitOK_of_nil rfl) hs
   | result fid ok perm =>
     simp only [result] at hs
     split at hs
     · cases hs; exact emitOK_of_nil rfl
-    · simp only [fetched] at hs
-      split at hs
-      · cases hs; exact emitOK_of_nil rfl
-      · split at hs
-        · refine dequeueFetches_emit (emitOK_of_nil ?_) hs
-          split <;> rfl
+    · split at hs
+      · simp only [fetched] at hs
+        split at hs
         · cases hs; exact emitOK_of_nil rfl
-  | wake perm =>
+        · split at hs
+          · refine dequeueFetches_emit (emitOK_of_nil ?_) hs
+            split <;> rfl
+          · cases hs; exact emitOK_of_nil rfl
+      · cases hs; exact emitOK_of_nil rfl
+  | wake perm plan =>
     simp only [wake] at hs
     split at hs
     · cases hs
     · rename_i s1 h1
-      cases hs
-      have h2 : EmitOK s1 := dequeueFetches_emit (emitOK_of_nil rfl) h1
-      exact h2
+      split at hs
+      · cases hs
+      · rename_i s2 h2
+        cases hs
+        have h3 : EmitOK s2 := fetchAll_emit (dequeueFetches_emit (emitOK_of_nil rfl) h1) h2
+        exact h3
 
 /-! ### non-vacuity -/
 
 /-- A reachable state with a fetch in flight, a queued fetch, a stale result outstanding and a
 disconnected persistent peer: the hypotheses of the theorems above are satisfiable non-trivially. -/
-def cfg2 : Cfg := { conc := 2, persist := [3], want := fun v => if v = 3 then 0 else v }
+def cfg2 : Cfg := { conc := 2, persist := [3], want := fun v => if v = 3 then 0 else v, wireFilter := true }
 
 def demo : List Op :=
   [.connIn 1, .dial 2, .connOut 2, .connOut 3, .fetchCmd 1 1, .refsAnn 1 2 1, .refsAnn 2 2 2,
-   .refsAnn 2 1 3, .disc 3 .outbound [1, 2], .disc 1 .inbound [2], .wake [3, 2]]
+   .refsAnn 2 1 3, .disc 3 .outbound [1, 2], .disc 1 .inbound [2], .wake [3, 2] []]
 
 example : ∃ s x f g, run cfg2 demo = .ok s ∧ s.sessions 2 = some x ∧ x.fset = [1, 2] ∧ x.queue = [] ∧
     s.fetching 1 = some f ∧ f.frm = 2 ∧ f.fid = 3 ∧ s.fetching 2 = some g ∧ g.frm = 2 ∧
     s.pending.length = 3 ∧ s.sessions 1 = none ∧ (s.sessions 3).map (·.st) = some .attempted :=
   ⟨_, _, _, _, rfl, rfl, rfl, rfl, rfl, rfl, rfl, rfl, rfl, rfl, rfl, rfl⟩
+
+/-- Inventory-announcement fetches, the sync task of `wake` (`fetch_missing_repositories`) and a worker
+result that `Wire` does not forward (its node has no session any more), with `wireFilter = true`. -/
+def demo2 : List Op :=
+  [.connIn 1, .connIn 2, .invAnn 1 1, .invAnn 1 2, .disc 1 .inbound [2], .result 1 false [2],
+   .wake [2] [(2, 2)]]
+
+example : ∃ s f g, run cfg2 demo2 = .ok s ∧ s.fetching 1 = some f ∧ f.frm = 2 ∧ f.fid = 2 ∧
+    s.fetching 2 = some g ∧ g.frm = 2 ∧ g.fid = 3 ∧ s.pending = [(2, 1, 2), (3, 2, 2)] ∧
+    s.misattributed = false ∧ s.sessions 1 = none :=
+  ⟨_, _, _, rfl, rfl, rfl, rfl, rfl, rfl, rfl, rfl, rfl, rfl⟩
 
 end HeartwoodModel.FetchSched
